@@ -194,6 +194,45 @@ theorem roundTrip_fields (c : ConsDef) :
   | mk kind name table schema body deferrable initially =>
     cases kind <;> simp [ConsDef.roundTrip]
 
+/-- **The reverse names what the op made**: same table, schema and object, inverse kind, and for a
+constraint the same constraint type (every op kind, every field value). -/
+theorem reverse_shape (o r : Op) (h : o.reverse = some r) : undoesShape o r = true := by
+  have hf := fun c : ConsDef => roundTrip_fields c
+  cases o with
+  | modifyTable t s ops =>
+    simp only [Op.reverse] at h
+    cases hr : reverseEach ops with
+    | none => simp [hr] at h
+    | some rs => simp [hr] at h; subst h; simp [undoesShape]
+  | dropColumn t s c kw rev =>
+    cases rev <;> simp [Op.reverse] at h
+    subst h; simp [undoesShape]
+  | dropConstraint n t s ty rev =>
+    cases rev with
+    | none => simp [Op.reverse] at h
+    | some r0 =>
+      simp [Op.reverse] at h; subst h
+      have := hf ({ r0 with name := n, table := t, schema := s } : ConsDef)
+      simp [undoesShape, this]
+  | createTableComment t s c e =>
+    cases e <;> simp [Op.reverse] at h <;> subst h <;> simp [undoesShape]
+  | addConstraint c =>
+    simp [Op.reverse] at h; subst h
+    simp [undoesShape, hf c]
+  | createTable t f => simp [Op.reverse] at h; subst h; simp [undoesShape]
+  | dropTable n s f c e rev => simp [Op.reverse] at h; subst h; simp [undoesShape]
+  | addColumn t s c kw => simp [Op.reverse] at h; subst h; simp [undoesShape]
+  | createIndex ix f => simp [Op.reverse, dropIndexOf] at h; subst h; simp [undoesShape]
+  | dropIndex n t s f kw rev => simp [Op.reverse] at h; subst h; simp [undoesShape, dropIndexToIndex]
+  | alterColumn a =>
+    simp [Op.reverse] at h; subst h
+    cases hn : a.modifyName <;> simp [undoesShape, Alter.reverse, hn]
+  | dropTableComment t s e => simp [Op.reverse] at h; subst h; simp [undoesShape]
+
+/-- the recogniser rejects a drop that forgot the constraint type -/
+example : undoesShape (.addConstraint ⟨.primaryKey, some "pk", "t", none, "id", none, none⟩)
+    (.dropConstraint (some "pk") "t" none none none) = false := by decide
+
 theorem alter_rr (a : Alter) (hc : Alter.complete a = true) : a.reverse.reverse = a := by
   rcases a with ⟨t, c, s, eT, eN, eD, eC, mT, mN, mD, mC, mName, kw⟩
   cases mName <;> cases mT <;> cases mN <;> cases mD <;> cases mC <;> cases eC <;> cases eT <;>
